@@ -529,6 +529,7 @@ type FuncContract struct {
 	Trusted  bool   // external: assumed, never verified
 	AssumedAssigns []AssignItem // frame callers may assume although it is not proved for the body (an explicit assumption)
 	HasAssumedAssigns bool
+	CallPreserves map[string][]AssignItem // call-site assumptions: callee key -> items the callee is assumed not to write
 	Iterates string // this function's only effects besides Assigns are calls of the named callback parameter (or captured variable)
 	Callback bool   // contract of a callback parameter: may write any object older than the enclosing function's entry, except Preserves
 	Preserves []AssignItem
@@ -583,7 +584,7 @@ type ContractFile struct {
 var clauseKeywords = map[string]bool{
 	"func": true, "requires": true, "ensures": true, "check": true, "defines": true, "assigns": true, "loop": true,
 	"ghost": true, "pred": true, "define": true, "axiom": true, "lemma": true, "inline": true,
-	"invariant": true, "decreases": true, "trusted": true, "pure": true, "readsargs": true, "iterates": true, "frame-assumed": true, "callback": true, "preserves": true, "note": true, "unroll": true, "ginv": true, "like": true, "frame": true,
+	"invariant": true, "decreases": true, "trusted": true, "pure": true, "readsargs": true, "iterates": true, "frame-assumed": true, "assume-preserved": true, "callback": true, "preserves": true, "note": true, "unroll": true, "ginv": true, "like": true, "frame": true,
 }
 
 // ParseContractFile reads //@ lines (or all lines if raw is true).
@@ -725,6 +726,24 @@ func ParseContractFile(path, pkg string, raw bool) (*ContractFile, error) {
 			if cur != nil {
 				cur.ReadsArgs = true
 			}
+		case "assume-preserved":
+			// assume-preserved <callee key>: items   (an assumption about calls of <callee> made by this function)
+			if cur == nil {
+				return nil, fmt.Errorf("%s: assume-preserved outside func", where)
+			}
+			ci := strings.Index(c.text, ":")
+			if ci < 0 {
+				return nil, fmt.Errorf("%s: assume-preserved needs '<callee>: items'", where)
+			}
+			callee := qualifyKey(pkg, strings.TrimSpace(c.text[:ci]))
+			items, err := parseAssigns(strings.TrimSpace(c.text[ci+1:]), where)
+			if err != nil {
+				return nil, err
+			}
+			if cur.CallPreserves == nil {
+				cur.CallPreserves = map[string][]AssignItem{}
+			}
+			cur.CallPreserves[callee] = append(cur.CallPreserves[callee], items...)
 		case "frame-assumed":
 			if cur == nil {
 				return nil, fmt.Errorf("%s: frame-assumed outside func", where)
